@@ -122,6 +122,7 @@ type Outcome struct {
 	CodeErr string   `json:"codeerr"`
 	AltKind string   `json:"altkind"`
 	Cls     []string `json:"cls"`
+	Src     string   `json:"src,omitempty"` // shape of the feature source when it is not the plain list of names
 	Mism    []Mism   `json:"mism"`
 	Texts   []string `json:"texts,omitempty"`
 	AltText []string `json:"alttexts,omitempty"`
@@ -196,9 +197,10 @@ func judge(id int, v *Vector) (Outcome, *TraceEvent) {
 		L int
 	}{v.Feats, len(v.Flt)})
 	h.Write(fb)
-	if v.FSrc != nil && v.FSrc.Op != "" && v.FSrc.Op != "names" {
+	if v.FSrc != nil && v.FSrc.Op != "" && !(v.FSrc.Op == "names" && v.FSrc.B) {
 		sb, _ := json.Marshal(v.FSrc)
 		h.Write(sb)
+		o.Src = v.FSrc.String()
 	}
 	o.Key = hex.EncodeToString(h.Sum(nil))[:16]
 	if id%1000000 == 1 {
